@@ -462,6 +462,48 @@ func checkC18(c *core.Ctx) {
 		traces = append(traces, &Trace{Events: s.events, Class: "isolated-during-join", Name: fmt.Sprintf("isolated#%d", i),
 			Scenario: map[string]any{"nodes": names, "seeds": names[:1], "joined_before": early, "isolated": victim, "seed": c.Seed*77 + int64(i)}})
 	}
+	// directed: a node restarts (same NodeID) and re-joins; what it broadcasts first is lost or late; another node joins meanwhile
+	for i := 0; i < core.Pick(c, 12, 60); i++ {
+		nn := 3 + i%3
+		var names []string
+		for k := 1; k <= nn; k++ {
+			names = append(names, fmt.Sprintf("n%d", k))
+		}
+		rng := rand.New(rand.NewSource(c.Seed*131 + int64(i)))
+		s := newGsim(names, names[:1], true)
+		s.launch("n1")
+		s.launch("n2")
+		s.join("n2", "n1")
+		for r := 0; r < 1+rng.Intn(2); r++ {
+			s.round(rng.Intn)
+		}
+		s.crash("n2")
+		s.launch("n2")
+		s.join("n2", "n1")
+		// the re-joined node's first messages: lost, or still in flight while the others join
+		switch i % 3 {
+		case 0:
+			for s.lose("n2", "n1") {
+			}
+		case 1:
+			for _, o := range names {
+				for s.lose("n2", o) {
+				}
+			}
+		}
+		for k := 3; k <= nn; k++ {
+			s.launch(names[k-1])
+			s.join(names[k-1], "n1")
+			if rng.Intn(2) == 0 {
+				s.round(rng.Intn)
+			}
+		}
+		s.finish(rng)
+		c.Add("evaluations", 1)
+		classes["restart-then-late-joiners"]++
+		traces = append(traces, &Trace{Events: s.events, Class: "restart-then-late-joiners", Name: fmt.Sprintf("rejoin#%d", i),
+			Scenario: map[string]any{"nodes": names, "seeds": names[:1], "restarted": "n2", "first_messages_of_the_rejoined_node": []string{"lost towards the seed", "all lost", "in flight"}[i%3], "seed": c.Seed*131 + int64(i)}})
+	}
 	// failure detection on (the default configuration has it on with 40 s): healthy clusters, no faults at all
 	for i := 0; i < core.Pick(c, 4, 12); i++ {
 		nn := 2 + i%3
